@@ -345,3 +345,41 @@ def _callee_clamps(fx):
                 if c and any(is_node(x) and q.strip_casts(x).get('dk') == 'param' for x in (c[1], c[2])):
                     return True
     return False
+
+
+def _executor_in_kind(run):
+    """post / dispatch / defer on a simulated io_context reach the internal queue AS WHAT THEY ARE: io_executor::K hands
+    the work to io_context::K_impl, which calls K on the internal executor.  defer (and post) may never become dispatch:
+    dispatched from inside a handler the work would run nested, ahead of everything queued before it."""
+    fx = run.fx
+    run.clause('work handed to an io_context keeps its kind on the way to the internal queue (post stays post, defer stays defer - never dispatch, which runs inline inside a running handler and overtakes the FIFO)')
+    n = 0
+    for kind in ('post', 'dispatch', 'defer'):
+        for norm, want in (('sim::asio::io_executor::' + kind, 'sim::asio::io_context::%s_impl' % kind), ('sim::asio::io_context::%s_impl' % kind, 'boost::asio::io_context::basic_executor_type::' + kind)):
+            fs = [g for g in fx.repo_functions() if g.norm == norm]
+            if not fs:
+                if norm.endswith('_impl'):
+                    continue        # a layer may be folded away; the executor rule below then sees the internal call directly
+                run.broke('%s is not among the analysed functions (tool/instantiate.cpp names post, dispatch and defer once each)' % norm)
+                continue
+            f = fs[0]
+            run.touch(f)
+            hand = [q.callee_name(c) or '' for c in f.calls() if (q.callee_name(c) or '').split('::')[-1].replace('_impl', '') in ('post', 'dispatch', 'defer')]
+            n += 1
+            good = bool(hand) and all(h.split('::')[-1].replace('_impl', '') == kind for h in hand)
+            if kind == 'dispatch':
+                good = bool(hand)       # dispatch may legitimately be implemented by post (never inline is always allowed)
+                good = good and all(h.split('::')[-1].replace('_impl', '') in ('dispatch', 'post', 'defer') for h in hand)
+            run.check(good, 'R8', 'executor-keeps-kind', '%s -> %s' % (norm, ', '.join(sorted(set(hand))) or 'nothing'), f.loc(),
+                      '%s hands the work on as %s: a %s() made from inside a handler runs its work inline, nested in the running handler and ahead of handlers queued earlier (FIFO order of posted work is lost)' % (norm, ', '.join(sorted({h.split('::')[-1] for h in hand})) or 'nothing', kind),
+                      want)
+    if n < 5:
+        run.broke('executor plumbing: %d forwarding functions found, 6 confirmed by hand' % n)
+
+
+_check_r8 = check
+
+
+def check(run):
+    _check_r8(run)
+    _executor_in_kind(run)
